@@ -1611,8 +1611,12 @@ class Store:
                 self.apply_update(update_value, state)
             return _EMPTY_UPDATES
 
-        if self.inner or self.subschema:
-            # Branch update: this node has an inner
+        if self.inner or self.subschema or (
+                isinstance(update, dict) and not self.leaf
+                and self.updater is None):
+            # Branch update: this node has an inner (or had one: a
+            # store whose children were all deleted is still a branch,
+            # not a variable without updater)
             process_updates = []
             step_updates = []
             flow_updates = []
